@@ -127,9 +127,56 @@ func runScenario(sc scenario) {
 		pubSt    *gortsplib.ServerStream
 		pubMedia []*description.Media
 	)
-	var ts *rig.TestServer
+	maxPayload := 1300
+	// arbitrary sequence numbers only on reliable transports without SRTP (SRTP derives its
+	// packet index from consecutive sequence numbers by design, RFC 3711)
+	t2 = rig.NewTraffic(2, rig.FlowPairs(desc), r, sc.Transport != "udp" && sc.Transport != "mcast" && !sc.TLS && sc.PubProto != "udp")
+	streamPath := "/stream"
+	var pub *rig.PubClient
 	if sc.Topology == "B" {
 		opts.NoStream = true
+		streamPath = "/pub"
+		t1 = t2 // same payload identities on both hops; t2 holds the forward log
+		t2 = &rig.Traffic{Run: t1.Run}
+		for _, f := range t1.Flows {
+			t2.Flows = append(t2.Flows, &rig.Flow{Run: f.Run, Dir: f.Dir, Media: f.Media, PT: f.PT})
+		}
+		fwd := t2
+		ingest = rig.NewReader("server-ingest", sc.PubProto == "tcp", 5)
+		// handler overrides are installed before the server starts
+		opts.PreStart = func(ts *rig.TestServer) {
+			ts.Core.Announce = func(ctx *gortsplib.ServerHandlerOnAnnounceCtx) (*base.Response, error) {
+				st := &gortsplib.ServerStream{Server: ts.S, Desc: ctx.Description}
+				if err := st.Initialize(); err != nil {
+					return &base.Response{StatusCode: base.StatusBadRequest}, err
+				}
+				pubMu.Lock()
+				pubSt = st
+				pubMedia = ctx.Description.Medias
+				pubMu.Unlock()
+				ts.Publish("pub", st)
+				return &base.Response{StatusCode: base.StatusOK}, nil
+			}
+			ts.Core.OnRecordPacket = func(_ *gortsplib.ServerSession, m *description.Media, f format.Format, pkt *rtp.Packet) {
+				pubMu.Lock()
+				st := pubSt
+				medias := pubMedia
+				pubMu.Unlock()
+				mi := -1
+				for i, mm := range medias {
+					if mm == m {
+						mi = i
+					}
+				}
+				ingest.OnPacket(mi, f.PayloadType(), pkt)
+				if fl := fwd.Flow(mi, f.PayloadType()); fl != nil && st != nil {
+					if idx := fl.Forward(pkt); idx >= 0 {
+						err := st.WritePacketRTP(m, pkt)
+						fl.Done(idx, err)
+					}
+				}
+			}
+		}
 	}
 	ts, err := rig.StartServer(opts)
 	if err != nil {
@@ -146,53 +193,7 @@ func runScenario(sc scenario) {
 		run.Violation(sc.Transport+"/"+key, fmt.Sprintf("[%s] %s", sc.Name, what), wit(extra))
 	}
 
-	maxPayload := 1300
-	// arbitrary sequence numbers only on reliable transports without SRTP (SRTP derives its
-	// packet index from consecutive sequence numbers by design, RFC 3711)
-	t2 = rig.NewTraffic(2, rig.FlowPairs(desc), r, sc.Transport != "udp" && sc.Transport != "mcast" && !sc.TLS && sc.PubProto != "udp")
-	streamPath := "/stream"
-	var pub *rig.PubClient
-
 	if sc.Topology == "B" {
-		streamPath = "/pub"
-		t1 = t2 // same payload identities on both hops; t2b holds the forward log
-		t2 = &rig.Traffic{Run: t1.Run}
-		for _, f := range t1.Flows {
-			t2.Flows = append(t2.Flows, &rig.Flow{Run: f.Run, Dir: f.Dir, Media: f.Media, PT: f.PT})
-		}
-		pubReliable := sc.PubProto == "tcp"
-		ingest = rig.NewReader("server-ingest", pubReliable, 5)
-		ts.Core.Announce = func(ctx *gortsplib.ServerHandlerOnAnnounceCtx) (*base.Response, error) {
-			st := &gortsplib.ServerStream{Server: ts.S, Desc: ctx.Description}
-			if err := st.Initialize(); err != nil {
-				return &base.Response{StatusCode: base.StatusBadRequest}, err
-			}
-			pubMu.Lock()
-			pubSt = st
-			pubMedia = ctx.Description.Medias
-			pubMu.Unlock()
-			ts.Publish("pub", st)
-			return &base.Response{StatusCode: base.StatusOK}, nil
-		}
-		ts.Core.OnRecordPacket = func(_ *gortsplib.ServerSession, m *description.Media, f format.Format, pkt *rtp.Packet) {
-			pubMu.Lock()
-			st := pubSt
-			medias := pubMedia
-			pubMu.Unlock()
-			mi := -1
-			for i, mm := range medias {
-				if mm == m {
-					mi = i
-				}
-			}
-			ingest.OnPacket(mi, f.PayloadType(), pkt)
-			if fl := t2.Flow(mi, f.PayloadType()); fl != nil && st != nil {
-				if idx := fl.Forward(pkt); idx >= 0 {
-					err := st.WritePacketRTP(m, pkt)
-					fl.Done(idx, err)
-				}
-			}
-		}
 		po := rig.ClientOpts{Name: "publisher", Proto: sc.PubProto, Path: "/pub"}
 		pub, err = rig.StartPublisher(ts, desc, po)
 		if err != nil {
